@@ -730,7 +730,7 @@ def fn_rules(ctx, fn):
         if sw:
             tr = {lab for lab, tgt in sw[0]['edges'] if any(x['expr'] == ('int', 1, 'bool') and iss[0].dominates(tgt, x['block']) for x in iss[0].exits())}
             okss = tr in ({'ConstSelf', 'MutSelf'}, {'ConstSelf|MutSelf'})
-    ctx.ob(['C04', 'C05', 'C07'], 'R-TMPL', 'fn|receiver-filter', okf and okis and okss,
+    ctx.ob(['C04', 'C05', 'C07', 'C13'], 'R-TMPL', 'fn|receiver-filter', okf and okis and okss,
            'call arguments drop the receiver only for Field bodies (filter = !body.is_field() || !a.is_self(); is_field ⇔ Field, is_self ⇔ ConstSelf|MutSelf): %s' % det, where)
 
 
